@@ -7,6 +7,7 @@ package explore
 import (
 	"encoding/json"
 	"fmt"
+	"math/bits"
 	"runtime"
 	"runtime/debug"
 	"sort"
@@ -344,9 +345,37 @@ func (p *Product) one(idx []int) (string, *ev.Fail) {
 	return out, fl
 }
 
+// strideOrder returns a fixed permutation of 0..total-1: i -> i*stride mod total with stride
+// coprime to total and close to total/phi. A product that completes visits every case either
+// way; one that is cut by its deadline has then sampled every dimension evenly instead of
+// leaving the tail of its first dimension untouched (such a run is reported exhaustive=false).
+func strideOrder(total int) func(int) int {
+	if total < 4 {
+		return func(i int) int { return i }
+	}
+	stride := uint64(float64(total) * 0.6180339887)
+	for gcd(stride, uint64(total)) != 1 {
+		stride++
+	}
+	t := uint64(total)
+	return func(i int) int {
+		hi, lo := bits.Mul64(uint64(i), stride)
+		_, rem := bits.Div64(hi, lo, t)
+		return int(rem)
+	}
+}
+
+func gcd(a, b uint64) uint64 {
+	for b != 0 {
+		a, b = b, a%b
+	}
+	return a
+}
+
 func (p *Product) Exec(r *ev.Run) {
 	t0 := time.Now()
 	total := p.total()
+	perm := strideOrder(total)
 	var next, done, nfail int64
 	nw := Workers()
 	outs := make([]map[string]struct{}, nw)
@@ -370,7 +399,7 @@ func (p *Product) Exec(r *ev.Run) {
 					atomic.StoreInt32(&timedOut, 2)
 					return
 				}
-				idx := p.decode(i)
+				idx := p.decode(perm(i))
 				out, fl := p.one(idx)
 				atomic.AddInt64(&done, 1)
 				if fl != nil {
@@ -394,7 +423,7 @@ func (p *Product) Exec(r *ev.Run) {
 	}
 	bound := fmt.Sprintf("complete product %v", p.Dims)
 	if timedOut == 1 {
-		bound = fmt.Sprintf("deadline hit: %d of %d cases of product %v (in index order per worker)", done, total, p.Dims)
+		bound = fmt.Sprintf("deadline hit: %d of %d cases of product %v, visited in a fixed golden-ratio stride order over the index space (spread over every dimension; no sub-product is complete)", done, total, p.Dims)
 	} else if timedOut == 2 {
 		bound = fmt.Sprintf("stopped after 200 failures: %d of %d cases", done, total)
 	}
